@@ -266,6 +266,63 @@ theorem tail_position_value (ctx : Ctx) (f : Nat) (env : Env) (s : St) (body : E
   obtain ⟨h1, h2, h3⟩ := reach_eval h
   exact ⟨h1, ⟨by rw [h2]; rfl, h3⟩, h2⟩
 
+/-! ### the function around the body: when may the FRAME be replaced? -/
+
+/-- what the rules still owe after the node in tail position: conversion to the declared result type when it yields a value;
+when it raises, the catch clauses OF THIS INVOCATION, run in its parameter environment -/
+def afterTail (ctx : Ctx) (f : Nat) (env : Env) (fn : FunEntry) (r : Res Loc) : Res Loc :=
+  match r with
+  | .ok l s1 => convCell fn.ret l s1
+  | .exc e s1 => (handle f ctx env fn.catches e >>= convCell fn.ret) s1
+  | .stop k s1 => .stop k s1
+
+/-- **tail_call_owes_handlers.**  A call of function `fid` whose body reaches a node `c` in tail position returns what `c`
+returns, converted to the declared result type — and if `c` RAISES, the exception is offered to the catch clauses of THIS
+invocation, which run in ITS parameter environment `env`.  So the invocation's frame is still needed after `c` exactly
+when the function has catch clauses: tail position in the body is not enough to replace the frame of such a function
+(known finding `tail-call-under-own-catch-clauses`: tailrec.c marks these calls too). -/
+theorem tail_call_owes_handlers (ctx : Ctx) (f : Nat) (fid : Nat) (cells args : List Loc) (s s0 : St) (fn : FunEntry) (env : Env)
+    (p : Path) (f' : Nat) (env' : Env) (s' : St) (c : Expr)
+    (hfn : ctx.findFun fid = some fn) (har : fn.params.length = args.length)
+    (hbind : bindParams fn.params args (mkEnv fn.bs cells) s = .ok env s0)
+    (h : Reach ctx f env s0 fn.body p f' env' s' c) :
+    callClo (f + 1) ctx fid cells args s = afterTail ctx f env fn (evalE f' ctx env' c s') := by
+  obtain ⟨h1, _, _⟩ := reach_eval h
+  simp only [callClo, hfn, har, ne_eq, not_true_eq_false, if_false, bind_eq, M.bind, hbind, tryCatch, h1, afterTail]
+  cases evalE f' ctx env' c s' <;> rfl
+
+/-- an exception that leaves a function without catch clauses is re-raised (and logged once more in the trace of raised
+exceptions, which no outcome shows) -/
+def passThrough (r : Res Loc) : Res Loc :=
+  match r with
+  | .exc e s1 => .exc e { s1 with raised := e :: s1.raised }
+  | r => r
+
+/-- **tail_call_replaces_frame.**  In a function WITHOUT catch clauses, a self call reached in tail position of the body
+gives the invocation its whole result: value cell (already of the declared type: the second conversion is the identity),
+store, output, exception, stop — nothing of the invocation is needed after the call is entered, which is what
+`args; func; SLIDE; CALL` (Never.C13.tail_call_restores_entry) relies on. -/
+theorem tail_call_replaces_frame (ctx : Ctx) (f : Nat) (fid : Nat) (cells args : List Loc) (s s0 : St) (fn : FunEntry) (env : Env)
+    (p : Path) (f' : Nat) (env' : Env) (s' : St) (c : Expr) (n : Nat) (cells2 args2 : List Loc) (s2 : St)
+    (hfn : ctx.findFun fid = some fn) (har : fn.params.length = args.length) (hc : fn.catches = [])
+    (hbind : bindParams fn.params args (mkEnv fn.bs cells) s = .ok env s0)
+    (h : Reach ctx f env s0 fn.body p f' env' s' c)
+    (hself : evalE f' ctx env' c s' = callClo n ctx fid cells2 args2 s2) :
+    callClo (f + 1) ctx fid cells args s = passThrough (callClo n ctx fid cells2 args2 s2) := by
+  rw [tail_call_owes_handlers ctx f fid cells args s s0 fn env p f' env' s' c hfn har hbind h, hself]
+  cases hr : callClo n ctx fid cells2 args2 s2 with
+  | ok l s1 => simp only [afterTail, passThrough]; exact callClo_result_converted hfn hr
+  | stop k s1 => rfl
+  | exc e s1 =>
+    simp only [afterTail, passThrough, hc, bind_eq, M.bind]
+    cases f with
+    | zero =>
+      have hf' := reach_zero h
+      subst hf'
+      rw [← hself] at hr
+      simp [evalE, oof, stopM] at hr
+    | succ f => simp [handle, throwE]
+
 /-! ### the hypotheses are satisfiable; the rule is not too generous -/
 
 /-- `func loop(n : int, acc : int) -> int { n == 0 ? acc : { let m = n - 1; loop(m, acc + n) } }
@@ -327,5 +384,21 @@ theorem scrutinee_not_tail_counterexample :
   refine ⟨rfl, ?_, ?_⟩
   · simp [evalE, evalGuards, exFlip, bind_eq, M.bind, alloc, load, exCtx_one, exCtx_two, exCtx_rec]
   · simp [evalE, alloc, exCtx_one, exCtx_rec]
+
+/-- `func f() -> int { true ? f() : 0 }` -/
+def exF : FunEntry :=
+  { id := 0, bs := ["f"], params := [], ret := .int,
+    body := .cond (.lit (.bool true)) (.call (.var "f") []) (.lit (.int 0)), catches := [] }
+def exFctx : Ctx := { funs := [exF] }
+def exS0 : St := { mem := #[.clo (some (0, [0]))] }
+def exS1 : St := { mem := #[.clo (some (0, [0])), .int 1] }
+
+/-- the hypotheses of `tail_call_replaces_frame` (and of `tail_call_owes_handlers`) hold of a concrete self tail call -/
+example : callClo 4 exFctx 0 [0] [] exS0 = passThrough (callClo 1 exFctx 0 [0] [] exS1) := by
+  refine tail_call_replaces_frame exFctx 3 0 [0] [] exS0 exS0 exF [("f", 0)] [(.condT, 0)] 2 [("f", 0)] exS1
+    (.call (.var "f") []) 1 [0] [] exS1 rfl rfl rfl rfl ?_ ?_
+  · refine Reach.condT (lc := 1) (s1 := exS1) (v := 1) ?_ rfl (by decide) Reach.here
+    simp [evalE, alloc, litVal, bool2v, exS0, exS1]
+  · simp [evalE, evalArgs, lookup, load, exS1, bind_eq, M.bind, pure, M.pure]
 
 end Never.Src.Tail.C13
